@@ -26,9 +26,11 @@ RULE = ('(a) every leaf of the alphabets (ints, floats, bool/None, all '
         'strings <=2 over an awkward alphabet, every bytes value <= L over '
         '{\\\\, u, U, x, N, 0, 4, 0xff} plus all 256 single bytes, enums, '
         'slices, sets, named tuples, defaultdicts, NO_VALUE, registered '
-        'constant, dict-based object, types, functions), standalone, as an '
+        'constant (by identity, and by value equal to primitives), dict-based '
+        'object, types, functions), standalone, as an '
         'argument, in a list and as a dict key; (b) every DAG shape up to N '
-        'nodes over all Buildable types with tags and shared containers; (c) '
+        'nodes over all Buildable types with tags and shared containers, and '
+        'over different callables carrying one name in two modules; (c) '
         'every document of the policy set x every single denied symbol (by '
         'import and by value), in the order permissive-then-strict; distinct '
         'by value/document; non-trivial when the value is not a plain JSON '
